@@ -114,6 +114,22 @@ def run(ctx):
                 else:
                     flat.append([k, w])
             cases.append({"items": items, "flat": flat, "seps": seps, "label": "".join(ks), "form": expr})
+            # the same arrangement with a hashtag INSIDE the time expression (between two of its words)
+            tw = expr.split(" ")
+            if len(tw) >= 2 and rep == 0:
+                k = rnd.randrange(1, len(tw))
+                items2, seps2 = [], []
+                for (kk, w), sp in zip(items, seps):
+                    if kk == "T":
+                        items2 += [["T", " ".join(tw[:k])], ["H", rnd.choice(TAGS)], ["T", " ".join(tw[k:])]]
+                        seps2 += [" ", " ", sp]
+                    else:
+                        items2.append([kk, w])
+                        seps2.append(sp)
+                flat2 = []
+                for kk, w in items2:
+                    flat2 += [["T", x] for x in words(w)] if kk == "T" else [[kk, w]]
+                cases.append({"items": items2, "flat": flat2, "seps": seps2, "label": "".join(ks) + "+split", "form": expr})
     core.run_stage(ctx, "arrangements", cases, _obs_flat, "SubjectTrace", cfg="SubjectTrace.cfg", sig_keys=("form",),
                    nontrivial=lambda c: (tuple(map(tuple, c["items"])), tuple(c["seps"])))
 
